@@ -161,6 +161,16 @@ let () =
        | ["DSCAN"; c; n] ->
            let (c', items) = M.dict_scan !dict (n_of_decimal c) (nat_of_int (int_of_string n)) in
            print_string (n_to_string c' ^ String.concat "" (List.map (fun it -> " " ^ hex_of_bytes it.M.it_key) items) ^ "\n")
+       | "LOADDIR" :: b :: ents ->
+           (* LOADDIR <basehex> (<sub 0|1> <namehex> <loads 0|1>)*: the walk of PersistDir.v *)
+           let rec triples = function
+             | s :: nm :: ok :: r -> ((s = "1", hb nm), ok = "1") :: triples r
+             | _ -> [] in
+           (match M.load_plan (hb b) (triples ents) with
+            | None -> print_string "PANIC\n"
+            | Some l ->
+                let l = List.sort compare (List.map (fun (z, p) -> (z_to_string z, int_of_n p)) l) in
+                print_string ("PLAN" ^ String.concat "" (List.map (fun (z, p) -> " " ^ z ^ ":" ^ string_of_int p) l) ^ "\n"))
        | ["W"; "RESET"] -> wcfg := M.w_cfg0; print_string "OK\n"
        | "W" :: "PUSH" :: k :: xs -> wdo (M.LPush (hb k, List.map hb xs))
        | ["W"; "STEAL"; k] -> wdo (M.LSteal (hb k))
